@@ -1,0 +1,63 @@
+//go:build verif
+
+package verifspec
+
+// Program assembly (compiler.WriteProgramCode): properties C10 and C05.
+//
+// Ghost state: glsAdded counts the packages whose go:linkname directives were aggregated; log is a hash chain over the
+// format strings written through writeF (chain is uninterpreted, so two logs are equal only if they were built from
+// the same strings in the same order); nw counts the packages written.
+
+//@ pure chain(l int, s int) int
+
+//@ extern compiler/linkname.GoLinknameSet.Add
+//@   param gls entries
+//@   ghost glsAdded = glsAdded + 1
+
+//@ extern compiler/linkname.GoLinknameSet.IsImplementation
+//@   param gls sym
+//@   assigns nothing
+
+//@ extern compiler/internal/dce.Selector.Include
+//@   param s decl implementsLink
+
+//@ extern compiler/internal/dce.Selector.AliveDecls
+//@   param s
+
+//@ extern compiler/prelude.PreludeFiles
+
+//@ extern internal/sourcemapx.Filter.WriteJS
+//@   param f js jsFilePath minify
+//@   results n err
+
+//@ extern compiler.writeF
+//@   param w minify format
+//@   results n err
+//@   ghost log = chain(log, str(format))
+
+//@ extern compiler.WritePkgCode
+//@   param pkg dceSelection gls minify w
+//@   ghost nw = nw + 1
+
+// WriteProgramCode: every package's directives are in the set before the first declaration is offered to dead-code
+// elimination, and a declaration is offered as a linkname implementation exactly when the complete set says so; the
+// packages are written in the order given (dependency order), each exactly once, after the prelude and before the
+// set-up tail; the tail is: $finishSetup of all packages, method synthesis, $initLinknames of all packages, the main
+// package variable, initialisation of package runtime, the main package's $init in a new goroutine, console flush.
+//@ func compiler.WriteProgramCode
+//@ property C10
+//@ property C05
+//@   requires len(pkgs) > 0 && w != nil && forall(k, 0, len(pkgs), pkgs[k] != nil)
+//@   ghost glsAdded = 0
+//@   ghost nw = 0
+//@   ghost log = 0
+//@   loop 1 invariant glsAdded == $i1
+//@   loop 2 invariant glsAdded == len(pkgs)
+//@   loop 3 invariant glsAdded == len(pkgs)
+//@   oncall IsImplementation: assert glsAdded == len(pkgs)
+//@   oncall Include: assert glsAdded == len(pkgs)
+//@   loop 4 invariant log == chain(chain(0, str("\"use strict\";\n(function() {\n\n")), str("var $goVersion = %q;\n")) && nw == 0
+//@   loop 5 invariant log == chain(chain(chain(0, str("\"use strict\";\n(function() {\n\n")), str("var $goVersion = %q;\n")), str("\n")) && nw == $i5
+//@   oncall WritePkgCode: assert a0 == pkgs[nw]
+//@   ensures result == nil ==> nw == len(pkgs)
+//@   ensures result == nil ==> log == chain(chain(chain(chain(chain(chain(chain(chain(chain(chain(chain(0, str("\"use strict\";\n(function() {\n\n")), str("var $goVersion = %q;\n")), str("\n")), str("$callForAllPackages(\"$finishSetup\");\n")), str("$synthesizeMethods();\n")), str("$callForAllPackages(\"$initLinknames\");\n")), str("var $mainPkg = $packages[\"%s\"];\n")), str("$packages[\"runtime\"].$init();\n")), str("$go($mainPkg.$init, []);\n")), str("$flushConsole();\n")), str("\n}).call(this);\n"))
